@@ -924,7 +924,7 @@ def run(c):
                     gv = [h2d(t) for t in gt]
                     ev = [h2d(t) for t in e]
                     scale = max([abs(v) for v in ev + gv if v == v and math.isfinite(v)] + [1e-300])
-                    if kind in ("fo", "pal", "fmt"):
+                    if kind in ("fo", "pal", "fmt", "pyfmt"):
                         sp = max([abs(v) for v in ev[:3] if math.isfinite(v)] + [1e-300])
                         sv = max([abs(v) for v in ev[3:6] if math.isfinite(v)] + [1e-300])
                         scales = [sp] * 3 + [sv] * 3 + [abs(ev[6]) or 1.0]
@@ -963,7 +963,7 @@ def run(c):
     for kind_, names_ in (("mod2pi", ["reb_mod2pi"]), ("m2e", ["reb_M_to_E"]), ("m2f", ["reb_M_to_f"]), ("e2f", ["reb_E_to_f"]),
                           ("fo", ["reb_particle_from_orbit_err"]), ("op", ["reb_orbit_from_particle_err"]), ("kpal", ["reb_tools_solve_kepler_pal"]),
                           ("pal", ["reb_particle_from_pal"]), ("p2pal", ["reb_tools_particle_to_pal"]),
-                          ("fmt", ["reb_simulation_add_fmt", "reb_particle_from_fmt"])):
+                          ("fmt", ["reb_simulation_add_fmt", "reb_particle_from_fmt"]), ("pyfmt", ["Particle.__init__"])):
         if by_kind.get(kind_, [0])[0] > 0:
             exercised(*names_)
     try:
@@ -1176,6 +1176,11 @@ def front_ends(c, rebound, clib, P, rng, add, fail, c_err_by_msg, thorough, trac
             exp = [co[0]] if co[0] != "ok" else [d2h(x) for x in co[1][:7]]
             add("fmt %s %s %s %s" % (d2h(sim.G), d2h(sim.t), " ".join(d2h(x) for x in [com.x, com.y, com.z, com.vx, com.vy, com.vz, com.m]), " ".join(kv)),
                 exp, "fmt", rep)
+            # the arithmetic of the Python constructor (model frontPy) against rebound.Particle itself
+            if not po[0].startswith("EX:") and as_int is None:
+                expp = [po[0]] if po[0] != "ok" else [d2h(x) for x in po[1][:7]]
+                add("pyfmt %s %s %s %s" % (d2h(sim.G), d2h(sim.t), " ".join(d2h(x) for x in [com.x, com.y, com.z, com.vx, com.vy, com.vz, com.m]), " ".join(kv)),
+                    expp, "pyfmt", rep)
         # search: C vs Python on the real code
         nonpal_other = any(pres[k] for k in ["e", "inc", "Omega", "omega", "pomega", "f", "M", "E", "theta", "T"])
         pal_any = any(pres[k] for k in ["h", "k", "ix", "iy"])
@@ -1780,7 +1785,7 @@ def covering_array(rng, factors, tries=150):
     stall = 0
     while uncovered and stall < 30:
         best, bestn = None, 0
-        ul = list(uncovered)
+        ul = sorted(uncovered)      # deterministic order (set iteration depends on the hash seed)
         for t in range(tries):
             case = dict((f, rng.choice(factors[f])) for f in names)
             if t % 2 == 0:
@@ -2128,6 +2133,27 @@ def pairwise_roundtrips(c, rebound, clib, P, rng, fail, track, thorough, check_r
     for case in three:
         run_case(case, "3way")
         stats["threeway_cases"] += 1
+    # every setter at least once per run, on a well-conditioned orbit, with the read-back oracle
+    for nm in ["a", "P", "e", "inc", "Omega", "omega", "pomega", "f", "M", "l", "theta", "T", "pal_h", "pal_k", "pal_ix", "pal_iy"]:
+        s3 = rebound.Simulation(); s3.G = rng.choice([1.0, 39.476926421373]); s3.t = rng.choice([0.0, 2.5])
+        s3.add(m=1.0, x=0.1, vy=0.01); s3.add(m=1e-3, a=0.4, e=0.05)
+        s3.add(m=1e-4, a=1.7, e=0.3, inc=0.5, Omega=0.7, omega=1.1, f=2.0)
+        q = s3.particles[2]
+        ob = q.orbit()
+        val = {"a": 2.3, "P": ob.P * 1.5, "e": 0.45, "inc": 0.8, "Omega": 1.9, "omega": 2.4, "pomega": 4.0, "f": 0.6, "M": 1.2, "l": 5.0, "theta": 3.3,
+               "T": s3.t - 0.3 * ob.P, "pal_h": 0.11, "pal_k": -0.2, "pal_ix": 0.3, "pal_iy": -0.1}[nm]
+        setattr(q, nm, val); exercised("Particle.%s.setter" % nm)
+        oa = q.orbit()
+        got = getattr(oa, nm)
+        if nm == "T":
+            okv = angdiff(oa.n * (got - val), 0.0) <= 1e-7
+        elif nm in ("Omega", "omega", "pomega", "f", "M", "l", "theta", "inc"):
+            okv = angdiff(got, val) <= 1e-7
+        else:
+            okv = abs(got - val) <= 1e-9 * max(abs(val), 1.0)
+        if not okv:
+            fail("setter-readback:" + nm, "after p.%s = v the orbit does not report %s = v" % (nm, nm), dict(name=nm, value=val, got=got))
+        c.count(("setter-smoke", nm))
     # E property of Orbit, sample_orbit, tools wrappers: cheap smoke with oracle
     sim = rebound.Simulation(); sim.add(m=1.0); sim.add(a=1.3, e=0.3, inc=0.2, Omega=0.1, omega=0.4, M=1.1)
     o = sim.particles[1].orbit()
